@@ -64,9 +64,19 @@ def conserved(text, pieces):
 
 
 def run_real(bib, text):
+    """The pieces; the call is repeated after the first result has been edited in place by the caller: the function
+    must not hand out shared state (the answer for a text does not depend on earlier calls)."""
     f = bib.middlewares.names.split_multiple_persons_names
     try:
-        return f(text)
+        first = f(text)
+        keep = list(first)
+        if isinstance(first, list):
+            first.append("<edited by the caller>")
+            first.reverse()
+        second = f(text)
+        if second != keep:
+            return {"first_call": keep, "same_call_after_caller_edited_the_result": second}
+        return keep
     except Exception as ex:  # noqa
         return f"{type(ex).__name__}: {ex}"
 
